@@ -12,7 +12,7 @@
    Some bytes = what the reader's buffer held (read, or peek followed by reclaim), None = reclaimed unseen. *)
 From Coq Require Import ZArith List Bool.
 Require Import Verif.gen.Consts_rb Verif.gen.Consts_rbconc Verif.RbModel Verif.RbSpec Verif.RbConcModel
-  Verif.RbConcProofs Verif.RbConcInv Verif.RbConcExamples.
+  Verif.RbConcProofs Verif.RbConcInv Verif.RbConcSeq Verif.RbConcExamples.
 Import ListNotations.
 Local Open Scope Z_scope.
 
@@ -125,6 +125,26 @@ Print Assumptions C01_open_ring_ok.
 Theorem C01_inv_load : forall s pw pr, Inv s -> quiescent s = true -> Inv (load s pw pr).
 Proof. exact inv_load. Qed.
 Print Assumptions C01_inv_load.
+
+(* second tie, by proof: the micro-step lists composed sequentially (the other thread idle) ARE the sequential
+   model RbModel.v of C07, whose alloc / commit / reclaim / space_free / chunk_step are proved equal to the Gallina text
+   regenerated from lib/ringbuffer.c by tools/c2coq.py on every run (PropertiesSrc_C07.v) *)
+Theorem C01_seq_write_is_C07_write : forall h d prog kk,
+  match wrun (length d + 12) h {| w_prog := WWrite d :: prog; w_k := kk; w_pc := WCall |} with
+  | Some (h', t', rc) => write (to_rb h) d = WRet (to_rb h') rc /\ t' = {| w_prog := prog; w_k := kk + 1; w_pc := WCall |}
+  | None => False
+  end.
+Proof. exact seq_write. Qed.
+Print Assumptions C01_seq_write_is_C07_write.
+
+Theorem C01_seq_reclaim_is_C07_reclaim : forall h prog kk sz acc buf hv,
+  match rrun 9 h {| r_prog := RReclaim :: prog; r_k := kk; r_pc := RCall; r_size := sz; r_acc := acc; r_buf := buf;
+                    r_have := hv |} with
+  | Some (h', t', rc, b) => to_rb h' = fst (reclaim (to_rb h)) /\ rc = 0 /\ b = [] /\ r_prog t' = prog /\ r_pc t' = RCall
+  | None => False
+  end.
+Proof. exact seq_reclaim. Qed.
+Print Assumptions C01_seq_reclaim_is_C07_reclaim.
 
 (* non-vacuity: a concrete run (the two threads alternating step by step) on a 16-word ring whose pointers start
    at word 13 and whose memory is full of stale marker words: the first chunk wraps around the end of the buffer,
